@@ -214,6 +214,45 @@ fn judge_decl(w1: &mut Worker, w2: &mut Worker, acc: &mut Acc, idx: u64, decl: S
     }
 }
 
+/// Overlapping import sets of one declaration that bring in the SAME binding twice (not an error:
+/// R7RS forbids only different bindings under one name), for values of every kind - among them
+/// values that are not equal to themselves under the implementation's own comparison (NaN).
+fn same_binding_twice(acc: &mut Acc) {
+    let src = "(define-library (vals) (import (scheme base)) (export nan negzero vec proc lst nanlst str sym one) (begin (define nan (/ 0. 0.)) (define negzero -0.0) (define vec (vector 1 2)) (define (proc a) a) (define lst '(1 2)) (define nanlst (list 1 (/ 0. 0.))) (define str \"\") (define sym 'a) (define one 1)))";
+    let names = ["nan", "negzero", "vec", "proc", "lst", "nanlst", "str", "sym", "one"];
+    let lname = LibraryName(vec![ruschm::parser::LibraryNameElement::Identifier("vals".into())]);
+    for n in names {
+        let others: Vec<&str> = names.iter().filter(|m| **m != n).cloned().collect();
+        for decl in [
+            format!("(import (only (vals) {0}) (only (vals) {0}))", n),
+            format!("(import (only (vals) {}) (except (vals) {}))", n, others[0]),
+            format!("(import (vals) (rename (vals) ({} renamed)))", others[1]),
+            format!("(import (vals) (vals))"),
+            format!("(import (prefix (only (vals) {0}) p-) (prefix (only (vals) {0}) p-))", n),
+        ] {
+            let mut it = match Interp::new() {
+                Ok(it) => it,
+                Err(e) => crate::drive::impl_fail(&format!("interpreter construction: {}", e)),
+            };
+            match guarded(|| LibraryFactory::from_char_stream(&lname, src.chars())) {
+                Ok(Ok(f)) => it.it.register_library_factory(f),
+                other => {
+                    acc.mismatch(Mismatch { idx: 8_000_000, case: src.to_string(), expected: "the library definition is accepted".into(), observed: format!("{:?}", other.map(|r| r.map(|_| "factory").map_err(|e| e.to_string()))), payload: json!({"declaration": src, "expected": {}}) }, None);
+                    return;
+                }
+            }
+            acc.evals += 1;
+            acc.count("same binding through two import sets", 1);
+            let o = it.eval(&decl);
+            let probe = if decl.contains("p-") { format!("p-{}", n) } else { n.to_string() };
+            let v = it.eval(&probe);
+            if !matches!(o, crate::drive::Outcome::Val(_)) || !matches!(v, crate::drive::Outcome::Val(_)) {
+                acc.mismatch(Mismatch { idx: 8_000_001, case: format!("[same binding twice] {}\n  where {}", decl, src), expected: format!("the declaration is accepted and {} is bound", probe), observed: format!("{} ; {} => {}", o, probe, v), payload: json!({"declaration": decl, "library": src, "library_name": "vals-needs-base", "expected": {}}) }, None);
+            }
+        }
+    }
+}
+
 /// Scale ladder: a library with N exports for every N <= max and import sets that name all / every
 /// other / one of them, rename them in a chain, a full rotation, a swap among N-2 other pairs (in
 /// both orders of the pairs), prefixed and nested. Expected bindings from the algebra on name -> value.
@@ -376,6 +415,7 @@ pub fn run(ctx: &Ctx) -> i32 {
     let scale = if ctx.thorough() { 300 } else { 64 };
     let nterms = acc.states;
     acc.merge(scale_phase(scale));
+    same_binding_twice(&mut acc);
     let _ = std::fs::remove_dir_all(scratch());
     report::finish(
         acc,
@@ -384,7 +424,7 @@ pub fn run(ctx: &Ctx) -> i32 {
             tier: ctx.tier_name(),
             seed: ctx.seed,
             exhaustive: true,
-            rule: "every import-set term of nesting depth <= D over a library exporting a b c d: only / except with every subset of the current names, prefixes p-, q- and the empty prefix, rename with every injective partial map of <= 2 current names into the current names + {e f} without duplicate results (swaps, chains, both orders of the pairs); each term with the library supplied natively, as registered source and as a file; every ordered pair of depth-<=1 terms in one declaration and as two declarations in sequence on one interpreter (the later one re-binds), and as the two import sets of a library that re-exports what it imports; each declaration on two interpreter instances; scale ladder: a library with N exports for every N <= 64 (thorough 300), imported whole / only / except (all, every other, one) / prefixed / renamed in a chain, a full rotation and a swap among N-2 other pairs, both orders of the pairs, also nested in prefix and only; states = terms, distinct = distinct binding sets".into(),
+            rule: "every import-set term of nesting depth <= D over a library exporting a b c d: only / except with every subset of the current names, prefixes p-, q- and the empty prefix, rename with every injective partial map of <= 2 current names into the current names + {e f} without duplicate results (swaps, chains, both orders of the pairs); each term with the library supplied natively, as registered source and as a file; every ordered pair of depth-<=1 terms in one declaration and as two declarations in sequence on one interpreter (the later one re-binds), and as the two import sets of a library that re-exports what it imports; each declaration on two interpreter instances; the same binding (a NaN, -0.0, a vector, a procedure, lists, the empty string, a symbol) brought in twice by overlapping import sets of one declaration; scale ladder: a library with N exports for every N <= 64 (thorough 300), imported whole / only / except (all, every other, one) / prefixed / renamed in a chain, a full rotation and a swap among N-2 other pairs, both orders of the pairs, also nested in prefix and only; states = terms, distinct = distinct binding sets".into(),
             bounds: json!({"depth": depth, "terms": nterms, "supply_modes": MODES.len(), "union_pairs": npairs, "scale_ladder_max_exports": scale}),
             assumptions: vec!["hash seeds cannot be enumerated: two instances per declaration are a sample of the seed space, the term space is exhaustive".into()],
             wall_s: ctx.elapsed(),
@@ -395,6 +435,15 @@ pub fn run(ctx: &Ctx) -> i32 {
 
 pub fn replay(p: &serde_json::Value) -> bool {
     let decl = p["declaration"].as_str().unwrap();
+    if p["library_name"] == "vals-needs-base" {
+        // (the same-binding-twice facet runs on an interpreter with the standard library)
+        let mut acc = Acc::new();
+        same_binding_twice(&mut acc);
+        for v in &acc.violations {
+            println!("{}\n  {}", v.case, v.observed);
+        }
+        return acc.n_violations > 0;
+    }
     setup_files();
     let mut w = new_worker();
     if let (Some(src), Some(name)) = (p["library"].as_str(), p["library_name"].as_str()) {
